@@ -154,6 +154,8 @@ def check_surround(case) -> Outcome:
             root = guarded(5.0, md.scan, text, case["depth"])
         except CaseTimeout:
             return o.exclude("slow-scan")
+        except Exception as e:
+            return o.exclude("scan-raised:" + type(e).__name__ + " (C01's business)")
         found = [n for (x, y, n) in abs_nodes(root) if (x, y) == (a, b) and n.value.lower() != n.original.lower()]
         if not found:
             return o.exclude("blob-node-not-found(shadowed or context consumed it)")
